@@ -1,11 +1,18 @@
 """C01 - stored events come back exactly as inserted, and the store owns its copy."""
+S = "aw_datastore.storages.sqlite.SqliteStorage."
 PROP = dict(
     id="C01",
     level="other",
-    contract_modules=["contracts.models"],
-    spec_modules=["contracts.models"],
-    functions=[],
+    contract_modules=["contracts.models", "contracts.sqlite"],
+    spec_modules=["contracts.sqlite"],
+    functions=[dict(fn=S + "insert_one", rt_skip=True),
+               dict(fn=S + "insert_many", rt_skip=True),
+               dict(fn=S + "get_event", rt_skip=True),
+               dict(fn=S + "get_events", rt_skip=True),
+               dict(fn="aw_datastore.storages.sqlite._rows_to_events", rt_skip=True)],
+    timeout_s=20,
     extra=[lambda run: run.storage_mode("c01", what="value fidelity (1970-2100, any offset, durations to 30 days, nested unicode JSON) and ownership (mutating passed-in / handed-out objects) on the real back ends")],
-    technique="run-time check of the real back ends (bounded); contract-based proof of the sqlite methods is layered on top where built",
-    explanation="bounded: random events (instants 1970-2100 at any UTC offset, durations 0..30 days at microsecond granularity, nested unicode JSON data) are inserted singly and in bulk into memory, sqlite and peewee; id unique in the bucket and returned by listing and lookup; instant equal to the millisecond, duration to the microsecond, data equal; then the caller's event, events handed out by reads and metadata dicts are mutated and later reads must not change.",
+    technique="run-time check of the real back ends (bounded); with the sqlite methods proved against contracts over the table state (SQL text parsed from the source)",
+    explanation="deductive (sqlite): insert_one / insert_many give every event without an id a row id never used before (old high-water mark + 1, consecutive for a bulk insert) in the addressed bucket, holding exactly the encoding (float microseconds of start and end, json.dumps of the data) of that event; get_event / get_events / _rows_to_events return fresh Event objects that are the decoding of exactly those rows. That decode(encode(x)) == x for the float encoding (IEEE arithmetic over 1970..2100) is NOT proved - the bounded run-time check below covers it. " 
+                "bounded: random events (instants 1970-2100 at any UTC offset, durations 0..30 days at microsecond granularity, nested unicode JSON data) are inserted singly and in bulk into memory, sqlite and peewee; id unique in the bucket and returned by listing and lookup; instant equal to the millisecond, duration to the microsecond, data equal; then the caller's event, events handed out by reads and metadata dicts are mutated and later reads must not change.",
 )
